@@ -132,7 +132,7 @@ def main(ctx: Ctx):
     model = ctx.model(['c18 ' + ' '.join(o for o in h if o[0] != 'x') for h in hists])      # a faulty client changes nothing in the table
     sess = inject.Session()
     try:
-        from pyworkers.remote_server import spawn_server
+        from common import spawn_server
         for hi, ops in enumerate(hists):
             sess.write_conf(None)
             srv = spawn_server(('127.0.0.1', 0))
@@ -163,7 +163,7 @@ def main(ctx: Ctx):
 
 
 def replay(case):
-    from pyworkers.remote_server import spawn_server
+    from common import spawn_server
     sess = inject.Session()
     srv = spawn_server(('127.0.0.1', 0))
     try:
